@@ -84,6 +84,15 @@ def is_shared(kind, info):
 def run(ck, m):
     _run(ck, m)
     framing_rule(ck, m)
+    # the permission list is matched against the key the guard is CALLED with: an effect on another key (a second key taken from the
+    # same argument, a key derived from it) was never matched against any pattern — C08.a's key binding, repeated
+    from nl import alias as _alias9
+    from props import C08 as _C08
+    ck.rule('C09.k', 'every keyed effect of a data command is on the key its access check was made for (C08.a, repeated): the secure-key / '
+                     'permission guard is called with the key operand that the guarded effect uses — an effect on a second key cut out of the same '
+                     'argument is covered by no permission pattern')
+    _alias9.repeat(ck, m, 'C08', ('C08.a',), 'C09.k', floor=40, runner=_C08._run,
+                   key_filter=lambda k: any(x in k for x in (':map-read', ':map-write', ':watch-write', ':watch-read', ':map-bulk-read')))
     permission_parser_rule(ck, m)
     refusal_reply_rule(ck, m)
     guards_refuse_with_an_error(ck, m)
@@ -557,14 +566,7 @@ def predicates(ck, m):
     for kind in ('db', 'safe'):
         gb, spec = m.guard_of_kind(kind)
         fn = short(gb.id)
-        inner = [bi for bi, t in gb.calls() if callee(t) in G]
-        sel = [bi for bi, t in gb.calls() if callee(t).endswith('bo::Client::selected_db_name')]
-        ok = False
-        for bi in sel:
-            for (sbi, tm, els, adt) in enum_switches(gb, bi):
-                some = tm.get('1', els)
-                if inner and all(gb.dominates(some, x) for x in inner):
-                    ok = True
+        ok = guard_needs_selection(m, kind)
         ck.ob('C09.b', fn, 'needs-selected-database', ok,
               'the closure is handed on only when the session has a selected database' if ok else
               'inner guard reachable without a selected database', '%s:%s' % (gb.file, gb.line))
@@ -886,3 +888,17 @@ def guards_refuse_with_an_error(ck, m):
               'looks at the kind of the Response only, hands the refused set / remove / increment to the other nodes, where it is executed on '
               'an administrator link' % (short(gid), others[0][0], [x[1] for x in others]), others[0][1] if others else '')
     ck.floor('C09.i', n, 5, 'guard functions')
+
+
+def guard_needs_selection(m, kind):
+    """the database guard of `kind` ('db' | 'safe') hands the closure on only on the Some edge of Client::selected_db_name()"""
+    G = m.guards()
+    gb, spec = m.guard_of_kind(kind)
+    inner = [bi for bi, t in gb.calls() if callee(t) in G]
+    sel = [bi for bi, t in gb.calls() if callee(t).endswith('bo::Client::selected_db_name')]
+    for bi in sel:
+        for (sbi, tm, els, adt) in enum_switches(gb, bi):
+            some = tm.get('1', els)
+            if inner and all(gb.dominates(some, x) for x in inner):
+                return True
+    return False
